@@ -18,7 +18,13 @@ import (
 	"time"
 )
 
-const Root = "/verif"
+// Root is the verification tree (overridable for scratch copies of /verif).
+var Root = func() string {
+	if r := os.Getenv("VERIF_ROOT"); r != "" {
+		return r
+	}
+	return "/verif"
+}()
 
 // Violation is one failing case. Key identifies the *kind* of failure (used to match
 // known findings); Case is whatever the check needs to replay it.
